@@ -338,3 +338,194 @@ Section InstCopy.
   Qed.
 End InstCopy.
 
+(* ------------------------------------------------------------------ *)
+(** * deepcopy of a flat instance *)
+
+Lemma apply_fn_effect f v s r s' :
+  apply_fn f v s = (r, s') ->
+  fail_at s' = fail_at s /\ length (heap s) <= length (heap s') /\
+  (forall i, i < length (heap s) -> nth_error (heap s') i = nth_error (heap s) i).
+Proof.
+  unfold apply_fn, bind, tick. intro H.
+  assert (T : forall s1, heap s1 = heap s -> fail_at s1 = fail_at s ->
+              forall r1 s2, (match f with
+                   | FId => ret v
+                   | FAddInt z => match v with
+                                  | VInt x => ret (VInt (x + z)%Z)
+                                  | VBool b => ret (VInt ((if b then 1 else 0) + z)%Z)
+                                  | _ => fail TypeErr end
+                   | FConst c => match c with VRef _ => fail RuntimeErr | _ => ret c end
+                   | FNewList xs => l <- alloc (OList xs) ;; ret (VRef l)
+                   | FAppended x =>
+                       match v with
+                       | VRef l => o <- read l ;;
+                                   match o with
+                                   | OList ys => l' <- alloc (OList (ys ++ [x])) ;; ret (VRef l')
+                                   | _ => fail TypeErr end
+                       | _ => fail TypeErr end
+                   | FDictOf k x => l <- alloc (ODict [(VStr k, x)]) ;; ret (VRef l)
+                   | FRaise => fail UserErr
+                   end) s1 = (r1, s2) ->
+              fail_at s2 = fail_at s /\ length (heap s) <= length (heap s2) /\
+              (forall i, i < length (heap s) -> nth_error (heap s2) i = nth_error (heap s) i)).
+  { intros s1 Hh Hf r1 s2 E.
+    assert (Same : forall rr, (rr, s1) = (r1, s2) -> fail_at s2 = fail_at s /\ length (heap s) <= length (heap s2) /\
+                   (forall i, i < length (heap s) -> nth_error (heap s2) i = nth_error (heap s) i)).
+    { intros rr E'. inversion E'; subst. rewrite Hh, Hf. repeat split; auto. }
+    assert (Pushed : forall o rr, (rr, push s1 o) = (r1, s2) -> fail_at s2 = fail_at s /\ length (heap s) <= length (heap s2) /\
+                   (forall i, i < length (heap s) -> nth_error (heap s2) i = nth_error (heap s) i)).
+    { intros o rr E'. inversion E'; subst. simpl. rewrite Hh, Hf, app_length. repeat split; auto; [lia|].
+      intros i Hi. now apply nth_error_app1. }
+    destruct f.
+    - eapply Same; exact E.
+    - destruct v; try (eapply Same; exact E).
+    - destruct v0; try (eapply Same; exact E).
+    - eapply Pushed. exact E.
+    - destruct v; try (eapply Same; exact E). unfold bind, read in E.
+      destruct (nth_error (heap s1) l) as [[ys| | |]|]; try (eapply Same; exact E).
+      eapply Pushed. exact E.
+    - eapply Pushed. exact E.
+    - eapply Same; exact E. }
+  destruct (fail_at s) as [n|] eqn:Ef.
+  - destruct (n =? S (ncalls s)).
+    + inversion H; subst. simpl. repeat split; auto.
+    + refine (T _ _ _ _ _ H); reflexivity.
+  - refine (T _ _ _ _ _ H); reflexivity.
+Qed.
+
+Lemma insert_by_map_keys {A B} (ka : A -> Z) (kb : B -> Z) (g : A -> B) :
+  (forall x, kb (g x) = ka x) ->
+  forall x l, insert_by kb (g x) (map g l) = map g (insert_by ka x l).
+Proof.
+  intros Hk x l. induction l as [|y l IH]; simpl; auto.
+  rewrite !Hk. destruct (ka x <=? ka y)%Z; simpl; auto. now rewrite IH.
+Qed.
+
+Lemma sort_by_map_keys {A B} (ka : A -> Z) (kb : B -> Z) (g : A -> B) :
+  (forall x, kb (g x) = ka x) -> forall l, sort_by kb (map g l) = map g (sort_by ka l).
+Proof.
+  intros Hk l. induction l as [|x l IH]; simpl; auto.
+  rewrite IH. now apply insert_by_map_keys.
+Qed.
+
+Section DeepcopyFlat.
+  Variable ct : ctable.
+
+  (* one level of DeepCopyMethod.deepcopy on an instance that is not in the memo *)
+  Lemma dc_inst_unfold f l memo s c d k :
+    assoc l memo = None -> nth_error (heap s) l = Some (OInst c d) -> lookup_cls ct c = Some k -> c_dnc k = false ->
+    dc ct (S (S (S f))) (VRef l) memo s =
+    (new <- alloc (OInst c []) ;;
+     memo' <- foldM (field_step ct new k f) d memo ;;
+     (match c_post_copy k with Some g => apply_fn g VNone ;;; ret tt | None => ret tt end) ;;;
+     ret (VRef new, (l, new) :: memo')) s.
+  Proof.
+    intros Hm Hl Hc Hd. remember (S (S f)) as f0 eqn:Ef.
+    cbn [dc]. rewrite Hm. rewrite (bind_ok _ _ _ _ _ (read_run l s _ Hl)). rewrite Hc, Hd. subst f0. reflexivity.
+  Qed.
+
+  Theorem dc_flat f l s c d k r0 m0 s' :
+    nth_error (heap s) l = Some (OInst c d) -> lookup_cls ct c = Some k -> c_dnc k = false ->
+    flat_fields (heap s) d ->
+    dc ct (S (S (S f))) (VRef l) [] s = (Ok (r0, m0), s') ->
+    let new := length (heap s) in
+    exists m',
+      r0 = VRef new /\
+      nth_error (heap s') new = Some (OInst c (map (fun p => (fst p, cp k m' (fst p) (snd p))) d)) /\
+      memo_ok (heap s) new m' s' /\ covered k m' d /\
+      fail_at s' = fail_at s /\ length (heap s) < length (heap s') /\
+      (forall i, i < length (heap s) -> nth_error (heap s') i = nth_error (heap s) i).
+  Proof.
+    intros Hl Hc Hdnc Hflat H new.
+    rewrite (dc_inst_unfold f l (@nil (loc * loc)) s c d k eq_refl Hl Hc Hdnc) in H.
+    rewrite (bind_ok _ _ _ _ _ (alloc_run (OInst c []) s)) in H.
+    fold new in H.
+    (* the attribute loop *)
+    assert (Hfr0 : framed_from (heap s) (push s (OInst c []))).
+    { split; simpl; [rewrite app_length; lia|]. intros i Hi. now apply nth_error_app1. }
+    assert (Hcell0 : nth_error (heap (push s (OInst c []))) new = Some (OInst c [])).
+    { simpl. unfold new. now rewrite nth_error_app2, Nat.sub_diag by lia. }
+    assert (Hm0 : memo_ok (heap s) new [] (push s (OInst c []))) by (intros lx lx' E; discriminate).
+    destruct (field_loop ct (heap s) new c k f (le_n _) d [] [] _ Hfr0 Hcell0 Hm0 Hflat)
+      as [m' [s1 [Eloop [Hfr1 [Hm1 [_ [Hcov1 [Hcell1 [Hn1 [Hf1 Hl1]]]]]]]]]].
+    rewrite (bind_ok _ _ _ _ _ Eloop) in H. cbn [app] in Hcell1.
+    apply bind_inv in H. destruct H as [u [s2 [Hpc Hret]]]. inversion Hret; subst r0 m0 s'. clear Hret.
+    (* the __post_copy__ hook only allocates *)
+    assert (Hpost : fail_at s2 = fail_at s1 /\ length (heap s1) <= length (heap s2) /\
+                    (forall i, i < length (heap s1) -> nth_error (heap s2) i = nth_error (heap s1) i)).
+    { destruct (c_post_copy k) as [g|].
+      - apply bind_inv in Hpc. destruct Hpc as [w [s3 [Hg Hr]]]. inversion Hr; subst. eapply apply_fn_effect; eauto.
+      - inversion Hpc; subst. repeat split; auto. }
+    destruct Hpost as [Hf2 [Hl2 Hsame2]].
+    assert (Hnewlt : new < length (heap s1)) by (apply nth_error_Some; congruence).
+    exists m'. split; [reflexivity|]. split; [rewrite Hsame2 by exact Hnewlt; exact Hcell1|]. split.
+    { intros lx lx' E. destruct (Hm1 lx lx' E) as [H1 [H2 [o [H3 [H4 H5]]]]]. split; auto. split; auto.
+      exists o. split; auto. split; auto. rewrite Hsame2; auto. apply nth_error_Some. congruence. }
+    split; [exact Hcov1|]. split; [simpl in Hf1; congruence|]. split; [unfold new in Hnewlt; lia|].
+    intros i Hi. rewrite Hsame2 by (destruct Hfr1; lia). destruct Hfr1 as [_ Hfr1]. apply Hfr1. exact Hi.
+  Qed.
+
+  Lemma deepcopy_unfold v s : deepcopy ct v s = (r <- dc ct (S (S (S 61))) v [] ;; ret (fst r)) s.
+  Proof. reflexivity. Qed.
+
+  Theorem deepcopy_flat l s c d k r s' :
+    nth_error (heap s) l = Some (OInst c d) -> lookup_cls ct c = Some k -> c_dnc k = false ->
+    flat_fields (heap s) d ->
+    deepcopy ct (VRef l) s = (Ok r, s') ->
+    let new := length (heap s) in
+    exists m',
+      r = VRef new /\
+      nth_error (heap s') new = Some (OInst c (map (fun p => (fst p, cp k m' (fst p) (snd p))) d)) /\
+      memo_ok (heap s) new m' s' /\ covered k m' d /\
+      fail_at s' = fail_at s /\ length (heap s) < length (heap s') /\
+      (forall i, i < length (heap s) -> nth_error (heap s') i = nth_error (heap s) i).
+  Proof.
+    intros Hl Hc Hdnc Hflat H. rewrite deepcopy_unfold in H.
+    apply bind_inv in H. destruct H as [[r0 m0] [s0 [H Hr]]]. inversion Hr; subst r s0. clear Hr.
+    exact (dc_flat 61 l s c d k r0 m0 s' Hl Hc Hdnc Hflat H).
+  Qed.
+
+  (* the copy is abstractly the original, and is again a flat instance *)
+  Theorem deepcopy_flat_abs l s c d k r s' n :
+    nth_error (heap s) l = Some (OInst c d) -> lookup_cls ct c = Some k -> c_dnc k = false ->
+    flat_fields (heap s) d ->
+    deepcopy ct (VRef l) s = (Ok r, s') ->
+    exists l' d',
+      r = VRef l' /\ length (heap s) <= l' /\
+      nth_error (heap s') l' = Some (OInst c d') /\ map fst d' = map fst d /\ flat_fields (heap s') d' /\
+      abs (S (S n)) (heap s') (VRef l') = abs (S (S n)) (heap s) (VRef l) /\
+      fail_at s' = fail_at s /\
+      (forall i, i < length (heap s) -> nth_error (heap s') i = nth_error (heap s) i).
+  Proof.
+    intros Hl Hc Hdnc Hflat H.
+    destruct (deepcopy_flat l s c d k r s' Hl Hc Hdnc Hflat H) as [m' [Hr [Hcell [Hm [Hcov [Hf [Hlen Hsame]]]]]]].
+    set (new := length (heap s)) in *.
+    set (G := fun p : aid * val => (fst p, cp k m' (fst p) (snd p))).
+    (* each stored value denotes the same container of scalars (or scalar) *)
+    assert (Hval : forall a x, In (a, x) d ->
+              flat_val (heap s') (cp k m' a x) /\ abs (S n) (heap s') (cp k m' a x) = abs (S n) (heap s) x).
+    { intros a x Hin. pose proof (Hflat (a, x) Hin) as Hfx. cbn [snd] in Hfx.
+      destruct Hfx as [Hx|[lx [o [-> [Ho Hso]]]]].
+      - assert (cp k m' a x = x) as -> by (unfold cp; destruct (is_dnc k a); auto; destruct x; auto; discriminate).
+        split; [left; auto|]. now rewrite !abs_nonref_eq.
+      - assert (Hlx : lx < length (heap s)) by (apply nth_error_Some; congruence).
+        unfold cp. destruct (is_dnc k a) eqn:Ed.
+        + split; [right; exists lx, o; repeat split; auto; rewrite Hsame; auto|].
+          eapply abs_scalar_obj; eauto. rewrite Hsame; auto.
+        + destruct (assoc lx m') as [lx'|] eqn:E; [|exfalso; eapply Hcov; eauto].
+          destruct (Hm lx lx' E) as [_ [_ [o' [Ho' [Hso' Hcell']]]]].
+          rewrite Ho in Ho'. inversion Ho'; subst o'.
+          split; [right; exists lx', o; repeat split; auto|]. eapply abs_scalar_obj; eauto. }
+    exists new, (map G d). split; auto. split; [unfold new; lia|]. split; [exact Hcell|]. split.
+    { rewrite map_map. apply map_ext. reflexivity. }
+    split.
+    { intros p Hp. apply in_map_iff in Hp. destruct Hp as [[a x] [<- Hin]]. cbn [snd G fst]. apply (Hval a x Hin). }
+    split; auto.
+    rewrite (abs_inst _ new c (map G d) (S n) Hcell), (abs_inst _ l c d (S n) Hl). f_equal.
+    unfold sorted_fields.
+    rewrite (sort_by_map_keys (fun p : aid * val => Z.of_nat (fst p)) (fun p : aid * val => Z.of_nat (fst p)) G)
+      by reflexivity.
+    rewrite map_map. apply map_ext_in. intros [a x] Hin. apply In_sort_by in Hin. cbn [G fst snd]. f_equal.
+    apply (Hval a x Hin).
+  Qed.
+End DeepcopyFlat.
